@@ -610,6 +610,14 @@ BUILDER_NAMES = list(BUILDERS)
 
 BATCHES = {"quick": [(), (2,), (1, 3)], "thorough": [(), (2,), (1,), (2, 3), (1, 3), (3, 1, 2)]}
 SIZES = {"quick": [1, 2, 4], "thorough": [1, 2, 3, 4, 6]}
+# quick: a covering subset of the product (every batch shape with a 1x1 or small and a larger size)
+QUICK_COMBOS = [((), 1), ((), 2), ((), 4), ((2,), 1), ((2,), 4), ((1, 3), 2)]
+
+
+def _combos(tier):
+    if tier == "quick":
+        return QUICK_COMBOS
+    return list(itertools.product(BATCHES[tier], SIZES[tier]))
 
 
 def instances(tier, names):
@@ -618,7 +626,7 @@ def instances(tier, names):
     seed0 = int(os.environ.get("VERIF_SEED", "0") or 0)
     for name in names:
         f = BUILDERS[name]
-        for b, n in itertools.product(BATCHES[tier], SIZES[tier]):
+        for b, n in _combos(tier):
             s = zlib.crc32(repr((name, b, n, seed0)).encode()) % (2**31)
             label = f"{name}|b={b}|n={n}"
             try:
@@ -1056,9 +1064,21 @@ def rtc_solve(names, tier):
         batch = tuple(D0.shape[:-2])
         lnames = list(spec.leaves)
         g = zoo.gen(zlib.crc32(("solve" + label).encode()) % (2**31))
-        cfgs = [_Cfg(me=False, chol=True), _Cfg(me=True, chol=True), _Cfg(me=False, chol=False), _Cfg(me=True, chol=False)]
-        cfgs_light = [_Cfg(me=False, chol=True), _Cfg(me=True, chol=False)]
+        c_chol0, c_chol1, c_cg0, c_cg1 = _Cfg(me=False, chol=True), _Cfg(me=True, chol=True), _Cfg(me=False, chol=False), _Cfg(me=True, chol=False)
+        cfgs = [c_chol0, c_chol1, c_cg0, c_cg1]
+        cfgs_light = [c_chol0, c_cg1]
+        thorough = tier != "quick"
         tol = 2e-7
+
+        def cfgs_for(rk, subset, nall):
+            # every configuration for the subset "everything requires grad"; two (Cholesky / CG, alternating
+            # memory_efficient) for the other subsets; one for the secondary rhs layouts
+            if thorough:
+                return cfgs
+            if rk in ("mat", "vec"):
+                return cfgs if len(subset) == nall else cfgs_light
+            return {"batched": [c_chol1], "bcast1": [c_cg0], "extra": [c_cg1], "mat1": [c_chol0]}.get(rk, cfgs_light) if len(subset) != nall else cfgs_light
+
         # ---- solve
         for rk, sh in _rhs_kinds(batch, n, ("vec", "mat", "batched", "bcast1", "extra")).items():
             X = _rn(g, *sh)
@@ -1068,7 +1088,7 @@ def rtc_solve(names, tier):
                 il = f"{label}|rhs={rk}|rg={'+'.join(subset)}"
                 _run_pair(rec, f"solve/{name}", il, spec, subset, OrderedDict(X=X),
                           lambda op, E: (W * op.solve(E["X"])).sum(), lambda D, E: (W * _solve_dense(D, E["X"])).sum(), tol,
-                          cfgs if rk in ("mat", "vec") else cfgs_light, cache)
+                          cfgs_for(rk, subset, len(lnames) + 1), cache)
         # ---- solve with left factor
         for rk, sh in _rhs_kinds(batch, n, ("mat", "batched")).items():
             X = _rn(g, *sh)
@@ -1079,7 +1099,7 @@ def rtc_solve(names, tier):
                 il = f"{label}|rhs={rk}|rg={'+'.join(subset)}"
                 _run_pair(rec, f"solve_left/{name}", il, spec, subset, OrderedDict(Lf=Lf, X=X),
                           lambda op, E: (W * op.solve(E["X"], E["Lf"])).sum(), lambda D, E: (W * (E["Lf"] @ _solve_dense(D, E["X"]))).sum(), tol,
-                          cfgs_light, cache)
+                          cfgs_for(rk, subset, len(lnames) + 2) if rk == "mat" else cfgs_light[:1 + int(len(subset) == len(lnames) + 2)], cache)
         if not spec.psd:
             continue
         # ---- inv_quad
@@ -1104,7 +1124,7 @@ def rtc_solve(names, tier):
                     il = f"{label}|rhs={rk}|reduce={int(red)}|rg={'+'.join(subset)}"
                     _run_pair(rec, f"inv_quad/{name}", il, spec, subset, OrderedDict(X=X),
                               lambda op, E, red=red, W=W: (W * op.inv_quad(E["X"], reduce_inv_quad=red)).sum(), fd, tol,
-                              cfgs if (rk == "mat" and red) else cfgs_light, cache)
+                              cfgs_for(rk, subset, len(lnames) + 1) if red else [c_cg1 if rk == "mat" else c_chol0], cache)
         # ---- logdet / inv_quad_logdet.  The CG path estimates logdet stochastically; with deterministic probe vectors
         # sqrt(n) * I the estimator (and the gradient it back-propagates) is exact up to the CG tolerance.
         Wl = _W(g, tuple(batch))
@@ -1121,7 +1141,8 @@ def rtc_solve(names, tier):
         for subset in _subsets(lnames, full=len(lnames) <= 3):
             il = f"{label}|rg={'+'.join(subset)}"
             _run_pair(rec, f"logdet/{name}", il, spec, subset, OrderedDict(),
-                      lambda op, E: (Wl * op.logdet()).sum(), lambda D, E: (Wl * torch.logdet(D)).sum(), 2e-6, lcfgs, cache)
+                      lambda op, E: (Wl * op.logdet()).sum(), lambda D, E: (Wl * torch.logdet(D)).sum(), 2e-6,
+                      lcfgs if (thorough or len(subset) == len(lnames)) else [lcfgs[0], lcfgs[3]], cache)
         cache = {}
 
         def fl_iql(op, E):
@@ -1134,7 +1155,8 @@ def rtc_solve(names, tier):
 
         for subset in _extras_subsets(lnames, ["X"], full=len(lnames) <= 3):
             il = f"{label}|rg={'+'.join(subset)}"
-            _run_pair(rec, f"inv_quad_logdet/{name}", il, spec, subset, OrderedDict(X=Xq), fl_iql, fd_iql, 2e-6, lcfgs, cache)
+            _run_pair(rec, f"inv_quad_logdet/{name}", il, spec, subset, OrderedDict(X=Xq), fl_iql, fd_iql, 2e-6,
+                      lcfgs if (thorough or len(subset) == len(lnames) + 1) else [lcfgs[1], lcfgs[2]], cache)
     return rec.obligations()
 
 
@@ -1393,15 +1415,15 @@ PSD_NAMES = None
 
 def rtc_units(tier):
     us = []
-    for i, ch in enumerate(_chunks(BUILDER_NAMES, 3)):
+    for i, ch in enumerate(_chunks(BUILDER_NAMES, 2)):
         us.append(Unit(f"C07/rtc/bilinear[{i}:{ch[0]}..{ch[-1]}]", "contracts.rtc_C07", "rtc_bilinear", (ch, tier), engine="rtc", timeout_s=1500))
-    for i, ch in enumerate(_chunks(BUILDER_NAMES, 8)):
+    for i, ch in enumerate(_chunks(BUILDER_NAMES, 6)):
         us.append(Unit(f"C07/rtc/linear[{i}:{ch[0]}..{ch[-1]}]", "contracts.rtc_C07", "rtc_linear", (ch, tier), engine="rtc", timeout_s=1500))
-    for i, ch in enumerate(_chunks(BUILDER_NAMES, 8)):
+    for i, ch in enumerate(_chunks(BUILDER_NAMES, 10)):
         us.append(Unit(f"C07/rtc/solve[{i}:{ch[0]}..{ch[-1]}]", "contracts.rtc_C07", "rtc_solve", (ch, tier), engine="rtc", timeout_s=1500))
     for i, ch in enumerate(_chunks(BUILDER_NAMES, 6)):
         us.append(Unit(f"C07/rtc/decomp[{i}:{ch[0]}..{ch[-1]}]", "contracts.rtc_C07", "rtc_decomp", (ch, tier), engine="rtc", timeout_s=1500))
-    for i, ch in enumerate(_chunks(BUILDER_NAMES, 2)):
+    for i, ch in enumerate(_chunks(BUILDER_NAMES, 1)):
         us.append(Unit(f"C07/rtc/float32[{i}:{ch[0]}..{ch[-1]}]", "contracts.rtc_C07", "rtc_float32", (ch, tier), engine="rtc", timeout_s=1500))
     return us
 
